@@ -7,64 +7,18 @@ Theorems about `Dmn.MB` (model of the index pairing in `parse_decision_table` an
 reference-following traversals of `ModelEvaluator::new` / `evaluate_invocable`) and about
 `Dmn.DT.evaluate` for the evaluation of a built table.  The XML layer (roxmltree), the stack and
 process aborts are **not** modelled: they are validated by the fault enumeration of
-`harness/src/c12.rs`.  On the current code the full statements are false (findings F11, F12):
-they are kept as comments, proved in `_partial` form, with `_counterexample`s.
+`harness/src/c12.rs`.  The decision-table statements hold at full strength since f36e6c9
+(F11 repaired).  The termination statements are false on the current code (finding F12): they
+are kept as comments, proved in `_partial` form, with `_counterexample`s.
 -/
 
 namespace Dmn.MB
 
 open Dmn Dmn.DT
 
-/-
--- FULL STATEMENT (not provable of the current code, finding F11):
-theorem dt_build_no_panic (t : TableS) : (buildTable t).isPanic = false
-for every table shape: any number of clauses, any rule lengths, zero outputs.
--/
-
-/-- The builder of a decision table returns `Ok` or `Err`, never panics, provided every rule
-has at least as many input / output entries as the table has input / output clauses. -/
-theorem dt_build_no_panic_partial (t : TableS) (h : t.wellShaped = true) :
-    (buildTable t).isPanic = false := by
-  simp only [buildTable]
-  split
-  · split
-    · apply ruleLoop_no_panic
-      intro r hr
-      simp only [TableS.wellShaped, List.all_eq_true, Bool.and_eq_true, decide_eq_true_eq] at h
-      exact h r hr
-    · simp [Outcome.isPanic]
-  · simp [Outcome.isPanic]
-
-example : (⟨[⟨true, none⟩, ⟨true, some true⟩], [⟨none, none, some true⟩],
-    [⟨[true, true], [true]⟩, ⟨[true, false, true], [true, true]⟩]⟩ : TableS).wellShaped = true := by decide
-
-/-- F11, build time: two input clauses, a rule with one input entry. -/
-def shortRule : TableS := ⟨[⟨true, none⟩, ⟨true, none⟩], [⟨none, none, none⟩], [⟨[true], [true]⟩]⟩
-/-- F11, build time: two output clauses, a rule with one output entry. -/
-def shortOutputs : TableS := ⟨[⟨true, none⟩], [⟨none, none, some true⟩, ⟨none, none, some true⟩], [⟨[true], [true]⟩]⟩
-
-theorem dt_build_no_panic_counterexample :
-    (buildTable shortRule).isPanic = true ∧ (buildTable shortOutputs).isPanic = true := by decide
-
-/-- A table that was built carries exactly one evaluator per clause in every rule: the
-evaluated tables are those with `DT.Table.WF` as soon as there is an output clause. -/
-theorem dt_build_shape (t : TableS) (ps : Parsed) (h : buildTable t = .ok ps) :
-    ps.length = t.rules.length ∧ ∀ p ∈ ps, p = (t.ins.length, t.outs.length) := by
-  simp only [buildTable] at h
-  split at h
-  · split at h
-    · exact ruleLoop_shape _ _ _ _ h
-    · simp at h
-  · simp at h
-
-/-
--- FULL STATEMENT (not provable of the current code, finding F11):
-theorem dt_eval_no_panic (t : DT.Table) (h : every rule has exactly one value per output clause) :
-    (DT.evaluate t).isPanic = false
--/
-
-/-- Evaluating a built table never panics when there is at least one output clause. -/
-theorem dt_eval_no_panic_partial (t : DT.Table) (wf : t.WF = true) : (DT.evaluate t).isPanic = false := by
+/-- Evaluating a table every rule of which carries one value per output clause (at least one)
+never panics. -/
+theorem dt_eval_no_panic_wf (t : DT.Table) (wf : t.WF = true) : (DT.evaluate t).isPanic = false := by
   have hne := ms_outputs_ne wf
   have hres : ∀ r ∈ Spec.matchingRules t, ∃ v, getResult (evalTable t) (evalRule r) = .ok v :=
     fun r hr => ⟨_, getResult_evalRule t r (hne r hr)⟩
@@ -161,13 +115,85 @@ theorem dt_eval_no_panic_partial (t : DT.Table) (wf : t.WF = true) : (DT.evaluat
 
 example : (⟨.collectSum, [], [.none], [.none], [⟨[.t], [.num 1]⟩]⟩ : DT.Table).WF = true := by decide
 
-/-- F11, evaluation time: a table without output clause builds, and panics when a rule matches. -/
+/-- The builder of a decision table returns `Ok` or `Err`, never panics — for every table
+shape: any number of clauses, any rule lengths, zero outputs, cells that do not parse. -/
+theorem dt_build_no_panic (t : TableS) : (buildTable t).isPanic = false := by
+  simp only [buildTable]
+  split
+  · split
+    · split
+      · simp [Outcome.isPanic]
+      · exact ruleLoop_no_panic _ _ _
+    · simp [Outcome.isPanic]
+  · simp [Outcome.isPanic]
+
+/-- The old witnesses of F11 (repaired by f36e6c9). Two input clauses, a rule with one input entry: -/
+def shortRule : TableS := ⟨[⟨true, none⟩, ⟨true, none⟩], [⟨none, none, none⟩], [⟨[true], [true]⟩]⟩
+/-- two output clauses, a rule with one output entry; -/
+def shortOutputs : TableS := ⟨[⟨true, none⟩], [⟨none, none, some true⟩, ⟨none, none, some true⟩], [⟨[true], [true]⟩]⟩
+/-- a rule with more entries than clauses; -/
+def longRule : TableS := ⟨[⟨true, none⟩], [⟨none, none, none⟩], [⟨[true, true], [true]⟩]⟩
+/-- a table without output clause. -/
 def noOutputs : TableS := ⟨[⟨true, none⟩], [], [⟨[true], []⟩]⟩
 
-theorem dt_eval_no_panic_counterexample :
-    buildTable noOutputs = .ok [(1, 0)] ∧
-    (DT.evaluate ⟨.unique, [], [], [], [⟨[.t], []⟩]⟩).isPanic = true ∧
-    (DT.evaluate ⟨.collectSum, [], [], [], [⟨[.t], []⟩]⟩).isPanic = true := by decide
+example : (buildTable shortRule).isError = true ∧ (buildTable shortOutputs).isError = true ∧
+    (buildTable longRule).isError = true ∧ (buildTable noOutputs).isError = true ∧
+    buildTable ⟨[⟨true, none⟩, ⟨true, some true⟩], [⟨none, none, some true⟩],
+      [⟨[true, true], [true]⟩, ⟨[true, true], [true]⟩]⟩ = .ok [(2, 1), (2, 1)] := by decide
+
+/-- A table is built exactly when it has an output clause, every rule has one entry per
+clause, and every cell parses; the parsed table then carries one evaluator per clause in
+every rule. -/
+theorem dt_build_shape (t : TableS) (ps : Parsed) (h : buildTable t = .ok ps) :
+    t.wellShaped = true ∧ ps = t.rules.map (fun _ => (t.ins.length, t.outs.length)) := by
+  simp only [buildTable] at h
+  split at h
+  · split at h
+    · split at h
+      · simp at h
+      · rename_i hne
+        have := ruleLoop_shape _ _ _ _ h
+        refine ⟨?_, this.1⟩
+        simp only [TableS.wellShaped, Bool.and_eq_true, List.all_eq_true, decide_eq_true_eq]
+        exact ⟨by simpa using hne, this.2⟩
+    · simp at h
+  · simp at h
+
+/-- `t` is what evaluating the cells of the parsed table `ps` of `ts` can produce: one cell per
+output clause, and per rule as many evaluated entries as the rule has evaluators. -/
+def Evaluates (ts : TableS) (ps : Parsed) (t : DT.Table) : Prop :=
+  t.outputValues.length = ts.outs.length ∧ t.defaultOutputs.length = ts.outs.length ∧
+  t.rules.map (fun r => (r.inputs.length, r.outputs.length)) = ps
+
+/-- Evaluating a decision table that was built never panics, whatever its cells evaluate to —
+for every table shape (tables without output clause or with rules of the wrong size are not
+built). -/
+theorem dt_eval_no_panic (ts : TableS) (ps : Parsed) (hb : buildTable ts = .ok ps)
+    (t : DT.Table) (he : Evaluates ts ps t) : (DT.evaluate t).isPanic = false := by
+  obtain ⟨hws, hps⟩ := dt_build_shape ts ps hb
+  obtain ⟨h1, h2, h3⟩ := he
+  apply dt_eval_no_panic_wf
+  simp only [TableS.wellShaped, Bool.and_eq_true, List.all_eq_true, decide_eq_true_eq] at hws
+  simp only [Table.WF, Bool.and_eq_true, decide_eq_true_eq, List.all_eq_true]
+  refine ⟨⟨?_, by omega⟩, ?_⟩
+  · have : ts.outs.length ≠ 0 := by
+      intro h0
+      have := hws.1
+      simp [List.isEmpty_iff, List.eq_nil_of_length_eq_zero h0] at this
+    omega
+  · intro r hr
+    rw [hps] at h3
+    have hmem : (r.inputs.length, r.outputs.length) ∈ t.rules.map (fun r => (r.inputs.length, r.outputs.length)) :=
+      List.mem_map.mpr ⟨r, hr, rfl⟩
+    rw [h3] at hmem
+    obtain ⟨_, _, he⟩ := List.mem_map.mp hmem
+    simp only [Prod.mk.injEq] at he
+    omega
+
+example : buildTable ⟨[⟨true, none⟩], [⟨none, none, none⟩], [⟨[true], [true]⟩]⟩ = .ok [(1, 1)] ∧
+    Evaluates ⟨[⟨true, none⟩], [⟨none, none, none⟩], [⟨[true], [true]⟩]⟩ [(1, 1)]
+      ⟨.collectSum, [], [.none], [.none], [⟨[.t], [.num 1]⟩]⟩ :=
+  ⟨by decide, rfl, rfl, rfl⟩
 
 /-
 -- FULL STATEMENT (not provable of the current code, finding F12):
